@@ -108,11 +108,145 @@ def tryit(a: int) -> int:
         return 0
 def compr(b: bytes) -> int:
     return sum([x for x in b])
+def compr_len(b: bytes) -> int:
+    return len([x for x in b])
 def kwcall(b: bytes) -> int:
     return int.from_bytes(b, byteorder="big")
 def decimal_unbounded(a: int) -> int:
     from decimal import Decimal
     return int(Decimal(a) * Decimal(a))
+import sys
+PY3 = sys.version_info > (3,)
+PLAT = sys.platform == "linux"
+def append_param(t, n: int) -> int:
+    t.append(n)
+    return n
+def append_alias(n: int) -> int:
+    a = [1]
+    b = a
+    a.append(n)
+    return b[0]
+def append_value(n: int) -> int:
+    a = [1]
+    x = a.append(n)
+    return n
+def tuple_store(n: int) -> int:
+    a = [1, 2]
+    t = tuple(a)
+    t[n] = 3
+    return t[0]
+def store_raise(n: int) -> int:
+    a = [1, 2]
+    a[n] = 3
+    return a[0]
+def two_whiles(a: int) -> int:
+    b = []
+    while a > 0:
+        c = a
+        while c > 0 and b[c] == 0:
+            c -= 1
+        b.append(c)
+        a -= 1
+    return len(b)
+def py3(a: int) -> int:
+    if PY3:
+        return a
+    else:
+        return ord(a)
+def plat(a: int) -> int:
+    if PLAT:
+        return a
+    return 0
+PAIRS = ((1, 0), (10, 4))
+def gen_sum(b: bytes) -> int:
+    return sum(b[i] << 1 for i in range(len(b)))
+def gen_sum_if(b: bytes) -> int:
+    return sum(x for x in b if x > 3)
+def gen_sum_raise(b: bytes, n: int) -> int:
+    return sum(b[i] for i in range(n))
+def _helper(t, n: int) -> int:
+    return sum(t) + n
+def uses_helper(b: bytes, n: int) -> int:
+    w = struct.unpack("<{}H".format(len(b) // 2), b)
+    return _helper(w, n)
+def pair_loop(v: int) -> int:
+    r = 0
+    for d, o in PAIRS:
+        r += (v * d) << o
+    return r
+def pairs_value(v: int) -> int:
+    return len(PAIRS) + v
+class Q(object):
+    def fill(self, n: int):
+        for x in range(4):
+            self.t[x] = n
+        return True
+    def fill_other(self, n: int):
+        self.t[0] = n
+        self.u[0] = n
+        return True
+def _halves(v):
+    return (v >> 12) & 0xfff, v & 0xfff
+def _not_tuple(v):
+    w = v + 1
+    return w, v
+def two(a: int, b: int) -> int:
+    return a ^ b
+def star_ok(v: int) -> int:
+    return two(*_halves(v))
+def star_bad(v: int) -> int:
+    return two(*_not_tuple(v))
+def star_expr(v: int) -> int:
+    return two(*_halves(v + 1))
+import logging
+logger = logging.getLogger(__name__)
+def effect(x):
+    return x
+def if_call(a: int) -> int:
+    if a > 3:
+        effect(a)
+    return a
+def if_print(a: int) -> int:
+    if a > 3:
+        print(a)
+    else:
+        pass
+    return a
+def if_raise(b: bytes, a: int) -> int:
+    if a > 3:
+        y = b[10]
+    return a
+def if_store_call(a: int) -> int:
+    t = [0, 0]
+    if a > 3:
+        t.__setitem__(0, a)
+    return t[0]
+def if_append(a: int) -> int:
+    t = [0]
+    if a > 3:
+        t.append(a)
+    return len(t)
+def if_log(a: int) -> int:
+    if a > 3:
+        logger.warning("big")
+        logging.info("value %d", a)
+    elif a < 0:
+        pass
+    return a
+def if_log_arg(b: bytes, a: int) -> int:
+    if a > 3:
+        logger.warning("big %d", b[a])
+    return a
+def if_temp(a: int) -> int:
+    if a > 3:
+        y = a + 1
+    return a
+def binones(a: int, n: int) -> int:
+    return bin(a)[2:n + 2].count('1')
+def cond_raise_while(b: bytes, j: int) -> int:
+    while j > 0 and b[j] != 0:
+        j -= 1
+    return j
 '''
 PT = ("P", [("a", "int"), ("t", "ints")])
 CASES = [   # (function, extra spec, expected substring of the error | None = must translate)
@@ -142,9 +276,47 @@ CASES = [   # (function, extra spec, expected substring of the error | None = mu
     ("bytes_mut", {}, "mutated in place"),
     ("decorated", {}, "decorator"),
     ("tryit", {}, "Try"),
-    ("compr", {}, "ListComp"),
+    ("compr", {}, None),                                     # sum([x for x in b]): inside the subset since `sum(<comprehension>)`
+    ("compr_len", {}, "ListComp"),
     ("kwcall", {}, "keyword arguments"),
     ("decimal_unbounded", {}, "not in the subset"),
+    ("append_param", {"params": {"t": "ints"}}, "mutated in place"),
+    ("append_alias", {}, "mutated in place"),
+    ("append_value", {}, "call of a.append"),
+    ("tuple_store", {}, "mutated in place"),
+    ("store_raise", {}, None),                               # translates, with the raising Py.setItem
+    ("two_whiles", {"fuel": "a + 1"}, None),                 # nested loops, one fuel expression for both
+    ("two_whiles", {"fuel": ["a + 1"]}, "1 `fuel` expressions for 2 while loops"),
+    ("two_whiles", {"fuel": ["a + 1", "c + 1"]}, None),
+    ("py3", {}, None),                                       # `sys.version_info > (3,)`: the Python-3 branch only
+    ("plat", {}, "sys.platform is not in the subset"),                       # any other module-level Bool is not a constant of the subset
+    ("cond_raise_while", {"fuel": "j + 1"}, None),
+    ("gen_sum", {}, None),                                   # sum over a generator expression
+    ("gen_sum_if", {}, "no `if`"),
+    ("gen_sum_raise", {}, "conditionally evaluated"),         # an element that can raise (IndexError) is refused
+    ("uses_helper", {}, None),                               # _helper is translated on demand
+    ("pair_loop", {}, None),                                 # for d, o in <module table of int pairs>
+    ("pairs_value", {}, "len() of pairs"),
+    ("Q.fill", {"params": {"self": ("Q", [("t", "ints")]), "n": "int"}, "mutates": ["t"]}, None),
+    ("Q.fill", {"params": {"self": ("Q", [("t", "ints")]), "n": "int"}}, "assignment to the attribute"),
+    ("Q.fill_other", {"params": {"self": ("Q", [("t", "ints"), ("u", "ints")]), "n": "int"}, "mutates": ["t"]},
+     "assignment to the attribute"),
+    ("two", {}, None),
+    ("star_ok", {}, None),                                   # f(*h(v)) with h a one-line tuple-returning helper
+    ("star_bad", {}, "single `return"),
+    ("star_expr", {}, "only names / constants"),
+    # an `if` that assigns nothing live is never dropped unseen: its branches are validated statement by statement
+    ("if_call", {}, "statement Expr is not in the subset"),
+    ("if_print", {}, "statement Expr is not in the subset"),
+    ("if_raise", {}, "can raise"),
+    ("if_store_call", {}, "statement Expr is not in the subset"),
+    ("if_append", {}, None),                                 # the append is translated (a conditional `t ++ [a]`), not dropped
+    ("if_log", {}, None),                                    # logging only: left out, with a note
+    ("if_log_arg", {}, "logging call with an argument"),
+    ("if_temp", {}, None),                                   # a dead, pure assignment: left out
+    ("binones", {}, "cannot show it is >= 0"),
+    ("binones", {"ranges": {"n": (0, 64)}}, None),           # short-circuit `and` with a raising right operand
+
 ]
 
 def main():
